@@ -1,6 +1,6 @@
 package main
 
-// Real ServerBuilders driven by call sequences (Model H, coq/Hs/Builder.v; shared by C03 and C10):
+// Real ServerBuilders driven by call sequences (Model J, coq/Hs/Builder.v; shared by C03 and C10):
 // KWorld - several builders side by side, every builder's configuration read back after every call, and the
 // Authenticate function of every built Server probed with every kind of authentication object;
 // KBuilt - a Server built by a builder serving scripted peers.
